@@ -160,15 +160,45 @@ def gauss(A, b):
     return x
 
 
+_QTOK = r"\(?\s*(-?0x[0-9a-fA-F]+(?:\.[0-9a-fA-F]+)?(?:[pP][+-]?\d+)?|-?\d+\.\d+(?:[eE][+-]?\d+)?|-?\d+(?:\s*#\s*\d+)?)\s*\)?(?:%xQ|%Q)?"
+
+
+def parse_q_token(tok):
+    """one rational as Coq 8.16 prints it: 'a # b', 'a', a decimal 'a.b' (denominator a power of 10, suffix %Q when
+    the scope is closed) or a HEXADECIMAL '0xa.b' / '0xa.bp-3' (denominator a power of 16, suffix %xQ)"""
+    t = tok.strip().strip("()").replace("%xQ", "").replace("%Q", "").strip().strip("()").strip()
+    neg = t.startswith("-")
+    if neg:
+        t = t[1:].strip()
+    if t.lower().startswith("0x"):
+        body, _, exp = t[2:].lower().partition("p")
+        ip, _, fp = body.partition(".")
+        val = Fr(int(ip or "0", 16)) + (Fr(int(fp, 16), 16 ** len(fp)) if fp else 0)
+        if exp:
+            val *= Fr(2) ** int(exp)
+    elif "#" in t:
+        a, b = t.split("#")
+        val = Fr(int(a), int(b))
+    elif "." in t or "e" in t.lower():
+        mant, _, exp = t.lower().partition("e")
+        ip, _, fp = mant.partition(".")
+        val = Fr(int(ip or "0")) + (Fr(int(fp), 10 ** len(fp)) if fp else 0)
+        if exp:
+            val *= Fr(10) ** int(exp)
+    else:
+        val = Fr(int(t))
+    return -val if neg else val
+
+
 def parse_q_pairs(s):
-    """'[(0%nat, -16470070 # 241001); (1%nat, 3)]' -> {0: Fraction, 1: Fraction}"""
+    """'[(0%nat, -16470070 # 241001); (1%nat, 3); (2%nat, 0x5.b%xQ)]' -> {0: Fraction, 1: Fraction, 2: Fraction}"""
     import re
     out = {}
-    for m in re.finditer(r"\((\d+)%nat,\s*(-?\d+)(?:\s*#\s*(\d+))?\)", s):
-        out[int(m.group(1))] = Fr(int(m.group(2)), int(m.group(3) or 1))
+    for m in re.finditer(r"\((\d+)%nat,\s*" + _QTOK + r"\)", s):
+        out[int(m.group(1))] = parse_q_token(m.group(2))
     return out
 
 
 def parse_q_list(s):
-    import re
-    return [Fr(int(m.group(1)), int(m.group(2) or 1)) for m in re.finditer(r"(-?\d+)(?:\s*#\s*(\d+))?", s.strip("[]"))]
+    body = s.strip().strip("[]").strip()
+    return [parse_q_token(t) for t in body.split(";")] if body else []
